@@ -126,9 +126,8 @@ func readOneExpr(tag *string) (string, error) {
 			*tag = s[idx+1:]
 			return s[:idx], nil
 		}
-		if count > 0 {
-			patch++
-		}
+		// (an odd number of quotes so far: the next piece starts inside a literal)
+		patch = 1
 	}
 	return "", fmt.Errorf("syntax error: %q unclosed single quote \"'\"", s)
 }
